@@ -445,54 +445,96 @@ def self_check(prog, rep, fi, q, fe, at, ctor, slot_of, how):
 
 
 # ---------------------------------------------------------------------------- SIGCOVER
-def _pos_domain(target, it, var):
-    """constants the loop variable `var` takes when `target` iterates over the tuple-of-tuples display `it`"""
-    if not isinstance(it, ast.Tuple):
-        return set()
+def _pos_domain(target, it, var, folder=None):
+    """constants the loop variable `var` takes when `target` iterates over the constant tuple(-of-tuples) `it` (a display
+    or a name that folds to one)"""
+    val = None
+    if folder is not None:
+        v = folder.fold(it, {}, it)
+        if isinstance(v, (tuple, list)):
+            val = v
+    if val is None:
+        if not isinstance(it, ast.Tuple):
+            return set()
+        val = []
+        for e in it.elts:
+            if isinstance(e, ast.Constant):
+                val.append(e.value)
+            elif isinstance(e, ast.Tuple) and all(isinstance(x, ast.Constant) for x in e.elts):
+                val.append(tuple(x.value for x in e.elts))
     if isinstance(target, ast.Name):
-        return {e.value for e in it.elts if isinstance(e, ast.Constant)}
+        return {e for e in val if isinstance(e, str)}
     if isinstance(target, ast.Tuple):
         idx = next((i for i, t in enumerate(target.elts) if isinstance(t, ast.Name) and t.id == var), None)
         if idx is None:
             return set()
-        return {e.elts[idx].value for e in it.elts if isinstance(e, ast.Tuple) and len(e.elts) > idx and isinstance(e.elts[idx], ast.Constant)}
+        return {e[idx] for e in val if isinstance(e, (tuple, list)) and len(e) > idx and isinstance(e[idx], str)}
     return set()
 
 
 def rule_sigcover(prog, rep, tier, anchor="parse.function", components=("args", "kwonlyargs", "kwarg")):
+    from sa.consteval import Folder
+    folder = Folder(prog)
     fi = prog.fn(anchor)
     fd = fi.params()[0]
     doc_names = {"doc_str", "intermediate_repr"}
+    # names that hold the signature object: <fd>.args itself or a local bound once to it
+    sig_names = set()
+    for st in ast.walk(fi.node):
+        if isinstance(st, ast.Assign) and len(st.targets) == 1 and isinstance(st.targets[0], ast.Name) and isinstance(st.value, ast.Attribute) and st.value.attr == "args" \
+                and isinstance(st.value.value, ast.Name) and st.value.value.id == fd:
+            sig_names.add(st.targets[0].id)
+
+    def is_sig(e):
+        return (isinstance(e, ast.Attribute) and e.attr == "args" and isinstance(e.value, ast.Name) and e.value.id == fd) or (isinstance(e, ast.Name) and e.id in sig_names)
     for comp in components:
         sites = []
+        hits = []
         for n in ast.walk(fi.node):
             hit = False
             extra_guard = []
-            if isinstance(n, ast.Attribute) and n.attr == comp and isinstance(n.value, ast.Attribute) and n.value.attr == "args" and isinstance(n.value.value, ast.Name) and n.value.value.id == fd:
+            if isinstance(n, ast.Attribute) and n.attr == comp and is_sig(n.value):
                 hit = isinstance(n.ctx, ast.Load)
+            elif isinstance(n, ast.Call) and isinstance(n.func, ast.Name) and n.func.id == "getattr" and len(n.args) >= 2 and isinstance(n.args[1], ast.Constant) \
+                    and n.args[1].value == comp and is_sig(n.args[0]):
+                hit = True
             elif isinstance(n, ast.Call) and isinstance(n.func, ast.Name) and n.func.id == "getattr" and len(n.args) == 2 and isinstance(n.args[1], ast.Name) \
-                    and isinstance(n.args[0], ast.Attribute) and n.args[0].attr == "args":
+                    and is_sig(n.args[0]):
                 var = n.args[1].id
                 dom = set()
                 p = n
                 while p is not None and p is not fi.node:
                     gens = getattr(p, "generators", [])
                     for g in gens:
-                        if var in names_in(g.target) and isinstance(g.iter, ast.Tuple):
-                            dom |= _pos_domain(g.target, g.iter, var)
+                        if var in names_in(g.target) and not isinstance(g.iter, ast.IfExp):
+                            dom |= _pos_domain(g.target, g.iter, var, folder)
                         elif var in names_in(g.target) and isinstance(g.iter, ast.IfExp):
-                            a = _pos_domain(g.target, g.iter.body, var)
-                            b = _pos_domain(g.target, g.iter.orelse, var)
+                            a = _pos_domain(g.target, g.iter.body, var, folder)
+                            b = _pos_domain(g.target, g.iter.orelse, var, folder)
                             dom |= a & b
                             if comp in (a ^ b):
                                 extra_guard.append(g.iter.test)
                                 dom.add(comp)
-                    if isinstance(p, ast.For) and var in names_in(p.target) and isinstance(p.iter, ast.Tuple):
-                        dom |= _pos_domain(p.target, p.iter, var)
+                    if isinstance(p, ast.For) and var in names_in(p.target):
+                        dom |= _pos_domain(p.target, p.iter, var, folder)
                     p = getattr(p, "_parent", None)
                 hit = comp in dom
             if not hit:
                 continue
+            hits.append((n, extra_guard))
+        # a read bound to a local (`kwarg = getattr(arguments, "kwarg", None)`) feeds the result where the local is used
+        expanded, seen_locals = [], set()
+        while hits:
+            n, extra_guard = hits.pop()
+            par = getattr(n, "_parent", None)
+            if isinstance(par, ast.Assign) and par.value is n and len(par.targets) == 1 and isinstance(par.targets[0], ast.Name) and par.targets[0].id not in seen_locals:
+                lv = par.targets[0].id
+                seen_locals.add(lv)
+                uses = [u for u in ast.walk(fi.node) if isinstance(u, ast.Name) and u.id == lv and isinstance(u.ctx, ast.Load)]
+                hits.extend((u, extra_guard) for u in uses)
+                continue
+            expanded.append((n, extra_guard))
+        for n, extra_guard in expanded:
             # skip reads that are only part of a test / len() / the self-stripping assignment
             par, child, in_test = n._parent, n, False
             while par is not None and not isinstance(par, ast.stmt):
